@@ -159,7 +159,7 @@ def r1_semantic(ctx: Context) -> None:
     rows = 0
     bad: dict[str, str] = {}
     try:
-        for l0 in (("A",), ("A", "A"), ("A", "B"), ("A", "B", "A")):
+        for l0 in (("A",), ("A", "A"), ("A", "B"), ("A", "B", "A"), ("A", "A", "B"), ("A", "B", "B"), ("A", "B", "C"), ("A", "A", "B", "C")):
             out = Evaluator(prog, con).run({con.params[0]: objs(l0)})
             if out.kind != "return" or not isinstance(out.value, dict):
                 raise AnalysisError(f"_construct_samplers_id_table does not return a dict on {l0}: {out.brief()}")
